@@ -4,7 +4,9 @@ import codec_common as cc
 
 def run(ctx):
     ctx.rule = ("per flavour: every class x (pairwise-distinct operand pattern + each leaf at its boundary values) "
-                "+ random in-range sequences (len 0..40) + random byte strings for decode; a case is non-trivial "
+                "+ random in-range sequences (len 0..40) + object histories (serialize, change app id / replace or re-assign "
+                "instructions / append / insert DebugInstruction pseudo-instructions in place, serialize again) "
+                "+ random byte strings for decode; a case is non-trivial "
                 "if it has at least one instruction; distinct = distinct (flavour, metadata, body)")
     impl = cc.prepare(ctx)
     if impl is None:
@@ -13,6 +15,8 @@ def run(ctx):
     n_seq = 150 if ctx.tier == "quick" else 6000
     cases = cc.gen_sequences(ctx, impl, n_seq, 40)
     dcases = cc.gen_dcases(ctx, impl, 100 if ctx.tier == "quick" else 3000)
+    hists = cc.gen_histories(ctx, impl, 40 if ctx.tier == "quick" else 1500)
+    cases += cc.run_histories(ctx, impl, hists)
     ctx.samples = [dict(flavour=c[0], version=[c[1], c[2]], app_id=c[3], body=c[4]) for c in cases[:2] + cases[-2:]]
     mism = cc.correspond(ctx, impl, cases, dcases, oracle=True)
     if mism and not ctx.violations:
